@@ -1,3 +1,4 @@
+import os
 """C07: rename to a fresh name preserves what every identifier means (oracle on the implementation)."""
 import copy, random
 import common, gen_scope
@@ -55,6 +56,36 @@ def parse_edits(line):
 
 def syntax_errors(line):
     return 0 if line in ("empty", "none") else sum(1 for d in line.split(";") if "Syntax" in d or "Parse" in d)
+
+
+def import_clash(ws, u, t):
+    """is token `u` (in an importing module) the name or alias of an unqualified value import `import m.{X as Y}`
+    where m declares both a type X and a value X (constructor, function or constant), and is the renamed
+    symbol `t` one of those two declarations of m (so that the rename removes the clash and `u` starts to resolve)?"""
+    import re
+    if t.goto is None:
+        return False
+    text = ws.files[u.file][1]
+    bypath = {os.path.splitext(os.path.basename(p))[0]: t for p, t in ws.files if p.endswith(".gleam")}
+    for m in re.finditer(r"import\s+([a-z0-9_/]+)\s*\.\s*\{([^}]*)\}", text):
+        src = bypath.get(m.group(1).split("/")[-1])
+        if src is None or ws.files[t.goto[0]][1] is not src:
+            continue
+        for item in m.group(2).split(","):
+            item = item.strip()
+            if not item or item.startswith("type "):
+                continue
+            parts = item.split()
+            name = parts[0]
+            alias = parts[2] if len(parts) == 3 and parts[1] == "as" else name
+            if u.text not in (name, alias) or t.text != name:
+                continue
+            has_type = re.search(r"\btype\s+" + re.escape(name) + r"\b", src) is not None
+            has_value = (re.search(r"(?m)^\s+" + re.escape(name) + r"\b\s*(\(|$)", src) is not None or
+                         re.search(r"\b(fn|const)\s+" + re.escape(name) + r"\b", src) is not None)
+            if has_type and has_value:
+                return True
+    return False
 
 
 def run_c07(res, tier, seed):
@@ -146,7 +177,13 @@ def run_c07(res, tier, seed):
                 exp = (og[0], fs)
             got = None if ng is None else (ng[0], ng[1])
             if exp != got:
-                bad = ("C07/meaning-changed", f"after the rename `{u.text}` at file {u.file} offset {u.start} resolves to {got}, before (moved) {exp}")
+                key = "C07/meaning-changed"
+                if exp is None and got is not None and import_clash(ws, u, t):
+                    # the recorded value/type import clash (C05/import-value-type-clash): the name does not resolve
+                    # while the exporting module also declares a type of that name; a rename that creates or
+                    # removes the clash flips it
+                    key = "C07/import-value-type-clash"
+                bad = (key, f"after the rename `{u.text}` at file {u.file} offset {u.start} resolves to {got}, before (moved) {exp}")
                 break
         if bad is None:
             newerr = {i: syntax_errors(x) for i, x in zip(n_gleam(ws), a[n:n + len(n_gleam(ws))])}
